@@ -7,79 +7,13 @@
 // The operands are built from the descriptors only (register ids, arrangement, element index, shift/extend kind and
 // amount, addressing mode, offset, immediate limbs); nothing is formatted or parsed by asmjit.  Emission goes through
 // the generic emit_op_array(inst_id, operands, n).  The buffer is rewound after every case, so a case sees offset 0.
-#include <asmjit/core.h>
-#include <asmjit/a64.h>
-#include "vjson.h"
-#include <string>
+#include "lib_a64forms.h"
 
 using namespace asmjit;
-
-static const uint64_t kBase = 0x40000000ull;
+using a64forms::kBase;
 
 struct ErrH : public ErrorHandler { void handle_error(Error, const char*, BaseEmitter*) override {} };
 
-static bool cond_by_name(const std::string& s, arm::CondCode& cc) {
-  static const struct { const char* n; arm::CondCode c; } T[] = {
-    {"eq", arm::CondCode::kEQ}, {"ne", arm::CondCode::kNE}, {"cs", arm::CondCode::kCS}, {"hs", arm::CondCode::kHS}, {"cc", arm::CondCode::kCC},
-    {"lo", arm::CondCode::kLO}, {"mi", arm::CondCode::kMI}, {"pl", arm::CondCode::kPL}, {"vs", arm::CondCode::kVS}, {"vc", arm::CondCode::kVC},
-    {"hi", arm::CondCode::kHI}, {"ls", arm::CondCode::kLS}, {"ge", arm::CondCode::kGE}, {"lt", arm::CondCode::kLT}, {"gt", arm::CondCode::kGT},
-    {"le", arm::CondCode::kLE}, {"al", arm::CondCode::kAL}, {"nv", arm::CondCode::kNA}};
-  for (auto& e : T) if (s == e.n) { cc = e.c; return true; }
-  return false;
-}
-static const char* kCondNames[16] = {"eq", "ne", "cs", "cc", "mi", "pl", "vs", "vc", "hi", "ls", "ge", "lt", "gt", "le", "al", "nv"};
-
-static bool shift_by_name(const std::string& s, arm::ShiftOp& op) {
-  static const struct { const char* n; arm::ShiftOp o; } T[] = {
-    {"lsl", arm::ShiftOp::kLSL}, {"lsr", arm::ShiftOp::kLSR}, {"asr", arm::ShiftOp::kASR}, {"ror", arm::ShiftOp::kROR}, {"msl", arm::ShiftOp::kMSL},
-    {"uxtb", arm::ShiftOp::kUXTB}, {"uxth", arm::ShiftOp::kUXTH}, {"uxtw", arm::ShiftOp::kUXTW}, {"uxtx", arm::ShiftOp::kUXTX},
-    {"sxtb", arm::ShiftOp::kSXTB}, {"sxth", arm::ShiftOp::kSXTH}, {"sxtw", arm::ShiftOp::kSXTW}, {"sxtx", arm::ShiftOp::kSXTX}};
-  for (auto& e : T) if (s == e.n) { op = e.o; return true; }
-  return false;
-}
-
-static uint32_t gp_id(long long id, long long sp) { return id == 31 ? (sp ? a64::Gp::kIdSp : a64::Gp::kIdZr) : uint32_t(id); }
-static a64::Gp make_gp(const std::string& t, long long id, long long sp) {
-  return t == "x" ? a64::Gp::make_r64(gp_id(id, sp)) : a64::Gp::make_r32(gp_id(id, sp));
-}
-
-static bool make_vec(const vj::Value& d, uint32_t id, a64::Vec& out) {
-  const std::string& t = d["t"].s();
-  const std::string& arr = d["arr"].s();
-  long long ei = d["ei"].i();
-  using ET = a64::VecElementType;
-  if (t != "v") {
-    if (t == "b") out = a64::Vec::make_v8(id); else if (t == "h") out = a64::Vec::make_v16(id); else if (t == "s") out = a64::Vec::make_v32(id);
-    else if (t == "d") out = a64::Vec::make_v64(id); else if (t == "q") out = a64::Vec::make_v128(id); else return false;
-    return true;
-  }
-  if (ei >= 0) {
-    ET et;
-    if (arr == "B") et = ET::kB; else if (arr == "H") et = ET::kH; else if (arr == "S") et = ET::kS; else if (arr == "D") et = ET::kD;
-    else if (arr == "4B") et = ET::kB4; else if (arr == "2H") et = ET::kH2; else return false;
-    out = a64::Vec::make_v128_with_element_index(et, uint32_t(ei), id);
-    return true;
-  }
-  if (arr == "8B") out = a64::Vec::make_v64_with_element_type(ET::kB, id);
-  else if (arr == "16B") out = a64::Vec::make_v128_with_element_type(ET::kB, id);
-  else if (arr == "4H") out = a64::Vec::make_v64_with_element_type(ET::kH, id);
-  else if (arr == "8H") out = a64::Vec::make_v128_with_element_type(ET::kH, id);
-  else if (arr == "2S") out = a64::Vec::make_v64_with_element_type(ET::kS, id);
-  else if (arr == "4S") out = a64::Vec::make_v128_with_element_type(ET::kS, id);
-  else if (arr == "1D") out = a64::Vec::make_v64_with_element_type(ET::kD, id);
-  else if (arr == "2D") out = a64::Vec::make_v128_with_element_type(ET::kD, id);
-  else if (arr == "2H") out = a64::Vec::make_v32_with_element_type(ET::kH, id);
-  else if (arr == "4B") out = a64::Vec::make_v32_with_element_type(ET::kB, id);
-  else if (arr == "1Q") out = a64::Vec::make_v128(id);
-  else return false;
-  return true;
-}
-
-static uint64_t limbs(const vj::Value& l) {
-  uint64_t v = 0;
-  for (size_t k = 0; k < 4 && k < l.size(); k++) v |= uint64_t(l[k].i() & 0xFFFF) << (16 * k);
-  return v;
-}
 
 int main(int argc, char** argv) {
   if (argc >= 3 && std::string(argv[1]) == "names") {
@@ -114,79 +48,11 @@ int main(int argc, char** argv) {
     if (line.empty()) continue;
     nline++;
     vj::Value c = vj::parse(line);
-    const std::string& name = c["n"].s();
-    // "iid" = ordinal of a64::Inst::kId<Name> in the public header enum (what a.<name>(...) passes to _emitI); the textual
-    // lookup InstAPI::string_to_inst_id is only a fallback (it does not know every mnemonic in this tree).
-    InstId id = c.has("iid") ? InstId(c["iid"].i()) : InstAPI::string_to_inst_id(Arch::kAArch64, name.data(), name.size());
-    Operand ops[8];
-    size_t n = 0;
-    bool built = id != 0;
-    const std::string& ccs = c["cc"].s();
-    if (built && !ccs.empty()) {
-      arm::CondCode cc;
-      if (!cond_by_name(ccs, cc)) built = false; else id = BaseInst::compose_arm_inst_id(id, cc);
-    }
-    const vj::Value& od = c["o"];
-    for (size_t k = 0; built && k < od.size(); k++) {
-      const vj::Value& d = od[k];
-      const std::string& kind = d["k"].s();
-      if (kind == "-") continue;
-      if (kind == "cc") {          // condition suffix of b.<cond>: part of the instruction id, not an operand
-        arm::CondCode cc; long long cv = d["c"].i();
-        if (cv < 0 || cv > 15 || !cond_by_name(kCondNames[cv], cc)) { built = false; break; }
-        id = BaseInst::compose_arm_inst_id(id, cc);
-        continue;
-      }
-      if (n >= 6) { built = false; break; }
-      if (kind == "r") {
-        if (d.has("ids")) { for (size_t j = 0; j < d["ids"].size() && n < 6; j++) ops[n++] = make_gp(d["t"].s(), d["ids"][j].i(), 0); }
-        else ops[n++] = make_gp(d["t"].s(), d["id"].i(), d["sp"].i());
-      } else if (kind == "v") {
-        if (d.has("ids")) {
-          for (size_t j = 0; j < d["ids"].size() && n < 6; j++) { a64::Vec v; if (!make_vec(d, uint32_t(d["ids"][j].i()), v)) { built = false; break; } ops[n++] = v; }
-        } else { a64::Vec v; if (!make_vec(d, uint32_t(d["id"].i()), v)) { built = false; break; } ops[n++] = v; }
-      } else if (kind == "i") {
-        ops[n++] = Imm(int64_t(limbs(d["l"])));
-      } else if (kind == "f") {
-        uint64_t bits = limbs(d["l"]); double x; memcpy(&x, &bits, 8);
-        ops[n++] = Imm(x);
-      } else if (kind == "s") {
-        arm::ShiftOp so;
-        if (!shift_by_name(d["op"].s(), so)) { built = false; break; }
-        long long amt = d["amt"].i();
-        ops[n++] = Imm(arm::Shift(so, uint32_t(amt < 0 ? 0 : amt)));
-      } else if (kind == "c") {
-        long long cv = d["c"].i();
-        arm::CondCode cc;
-        if (cv < 0 || cv > 15 || !cond_by_name(kCondNames[cv], cc)) { built = false; break; }
-        ops[n++] = Imm(uint32_t(cc));
-      } else if (kind == "l") {
-        uint64_t pc = kBase;       // the case is emitted at offset 0
-        int64_t v = d["v"].i();
-        if (d["page"].i()) pc &= ~uint64_t(4095);
-        ops[n++] = Imm(int64_t(pc + uint64_t(v)));
-      } else if (kind == "m") {
-        a64::Gp base = a64::Gp::make_r64(gp_id(d["b"].i(), d["bsp"].i()));
-        a64::Mem m;
-        long long xi = d["xi"].i();
-        if (xi >= 0) {
-          a64::Gp index = make_gp(d["xt"].s(), xi, d["xsp"].i());
-          const std::string& sh = d["sh"].s();
-          long long amt = d["amt"].i();
-          if (sh.empty() && amt < 0) m = a64::Mem(base, index);
-          else {
-            arm::ShiftOp so = arm::ShiftOp::kLSL;
-            if (!sh.empty() && !shift_by_name(sh, so)) { built = false; break; }
-            m = a64::Mem(base, index, arm::Shift(so, uint32_t(amt < 0 ? 0 : amt)));
-          }
-        } else {
-          m = a64::Mem(base, int32_t(d["off"].i()));
-        }
-        const std::string& mode = d["mode"].s();
-        if (mode == "pre") m.make_pre_index(); else if (mode == "post") m.make_post_index();
-        ops[n++] = m;
-      } else { built = false; }
-    }
+    a64forms::Built bo;
+    bool built = a64forms::build(c, bo);
+    InstId id = bo.inst_id;
+    Operand* ops = bo.ops;
+    size_t n = bo.n;
     Error err = Error::kInvalidArgument;
     size_t nbytes = 0;
     uint32_t words[8]; size_t nw = 0;
